@@ -176,8 +176,10 @@ CODEC_TRUSTED = [
     'std::net: SocketAddr is the transparent enum; SocketAddrV4/V6 are opaque records observed through ip/port accessors with constructor axioms (IPv6 flow info and scope id are not transmitted, the decoder sets them to 0)',
     'R6: SmallVec lists (AddrList, PeerList, RangeList, key bytes) are modelled by Vec (push / pop / with_capacity / iteration only); ring UnparsedPublicKey is an opaque byte container',
 ]
+CODEC_DRV = {'file': 'native/codec_model.rs', 'attach': 'src/messages.rs', 'test': 'node_info_codec_matches_the_format'}
 PROPS['C16'] = {
     'level': 'proof',
+    'native_search': {r'codec::(NodeInfo|Range|Address|lemma|theorem).*': CODEC_DRV},
     'level_text': 'Proof (Verus, real code, unbounded lengths, termination included): NodeInfo::{decode, decode_internal, decode_peer_list_part, decode_claims_part, read_addr_list, read_addr_list_inner}, Range::read_from, Address::{read_from, read_from_fixed} and RotationMessage::read_from against a format specification written from the wire format (value or error for EVERY byte sequence; unknown parts are skipped; only the length of the three fixed-size known parts is left unspecified when it disagrees with their content); the encoders NodeInfo::{encode_peer_list_part, encode_addrs_part}, Range/Address::write_to, RotationMessage::write_to against byte-exact output specifications; round-trip THEOREMS decode-spec(encode-spec(x)) == normalise(x) for peer lists (at most seven addresses per family, IPv6 first), claim lists and rotation messages. Proof (Kani, full domain): Range/Address codec. NOT decided: the handshake message codec (InitMsg), and the TLV framing on the encoder side (NodeInfo::encode_part / encode_internal: closures over Cursor<&mut [u8]> with seek).',
     'verus': [{'unit': 'codec', 'rlimit': 60}],
     'kani': {
@@ -269,6 +271,7 @@ PROPS['C08'] = {
 }
 
 PROPS['C08']['trusted'] = PROPS['C08']['trusted'] + CODEC_TRUSTED
+PROPS['C08']['native_search'][r'codec::(NodeInfo|Range|Address).*'] = CODEC_DRV
 
 CLB = 'cloud::__verif_cloudblocks::'
 PROPS['C13'] = {
